@@ -3,6 +3,7 @@ package props
 import (
 	"os"
 	"testing"
+	"time"
 )
 
 // childModes are entry points run instead of the tests when the test binary
@@ -12,6 +13,8 @@ var childModes = map[string]func(){}
 func TestMain(m *testing.M) {
 	if mode := os.Getenv("VERIF_CHILD"); mode != "" {
 		if fn := childModes[mode]; fn != nil {
+			// a child must never outlive its parent's patience: hard watchdog
+			time.AfterFunc(20*time.Second, func() { os.Exit(98) })
 			fn()
 			os.Exit(0)
 		}
